@@ -19,7 +19,7 @@ SPECS = [
          ] + CTX + [
              # what the translation function returns is what appears in the output
              "S() == S0() + 'A<p>' + piece(translate_result(0)) + '</p>B'",
-         ], raises=ANYRAISE, serves=['C10'], no_fresh=True),
+         ], raises=ANYRAISE, serves=['C10']),
     dict(id='S-Translate-id',
          text='A<p i18n:translate="mid">t%s</p>B' % H1,
          ensures=[
@@ -29,7 +29,7 @@ SPECS = [
              "translate_arg(0, 'mapping') is None",
          ] + CTX + [
              "S() == S0() + 'A<p>' + piece(translate_result(0)) + '</p>B'",
-         ], raises=ANYRAISE, serves=['C10'], no_fresh=True),
+         ], raises=ANYRAISE, serves=['C10']),
     dict(id='S-Translate-empty',
          text='A<p i18n:translate="">  \n </p>B',
          ensures=["translate_calls() == 0", "S() == S0() + 'A<p></p>B'"],
